@@ -53,7 +53,7 @@ def interleavings(counts):
 class C07(Property):
     id = "C07"
     title = "SingleFlight/LockedCalls: de-duplication without staleness, per-key exclusion"
-    quick_cases = 850
+    quick_cases = 650      # + 319 fixed corpus cases
     thorough_cases = 7000
     design_ref = "DESIGN.md §6/C07"
     level_text = ("Unbounded Rocq theorems over an interleaving model (any number of threads, any scripts of "
